@@ -750,11 +750,6 @@ class C19:
             rel = pr['rel']
             if rel == 'lower' and exp <= 1:
                 rel = 'eq'
-            if rel == 'higher' and case['state'] == 'testreq_sent' and not outstanding and not self.replaying_known:
-                # open known finding higher-while-testrequest-pending: the class is excluded from the search by construction (and counted);
-                # its saved reproducer is replayed on every run
-                excluded.append('higher_number_while_testrequest_pending(known finding)')
-                rel = 'eq'
             seq = exp if rel == 'eq' else (max(1, exp - pr['delta']) if rel == 'lower' else exp + pr['delta'])
             now = ts(clock)
             orig = {None: None, 'earlier': ts(clock - 50), 'equal': now, 'later': ts(clock + 50)}[pr['orig']]
@@ -1125,3 +1120,217 @@ class C23:
 
 
 CHECKS['C23'] = C23
+
+
+# ================================================================================================
+# C20: gaps are recovered with a conformant counterparty
+# ================================================================================================
+class ConformantPeer:
+    """a counterparty that follows the FIX session protocol: own numbering and store of what it sent; answers a ResendRequest by
+    replaying application messages (PossDupFlag=Y, OrigSendingTime) and gap-filling administrative ones, then continues normally"""
+
+    def __init__(self, begin, me, them):
+        self.begin, self.me, self.them = begin, me, them
+        self.pn = 1
+        self.sent = {}
+
+    def new(self, mtype, now, extra=(), app_id=None):
+        seq = self.pn
+        self.pn += 1
+        self.sent[seq] = {'type': mtype, 'extra': list(extra), 'time': now, 'id': app_id}
+        return seq, inbound(self.begin, mtype, self.me, self.them, seq, now, extra)
+
+    def replay(self, b, e, now, gf_possdup=True):
+        """messages answering ResendRequest [b,e] (e=0: to the latest), in order"""
+        last = self.pn - 1
+        e = last if e == 0 or e > last else e
+        out = []
+        s = b
+        while s <= e:
+            m = self.sent[s]
+            if m['type'] not in sessref.ADMIN_TYPES:
+                out.append(('resend %d' % s, inbound(self.begin, m['type'], self.me, self.them, s, now, m['extra'], possdup='Y', orig=m['time'])))
+                s += 1
+            else:
+                t = s
+                while t <= e and self.sent[t]['type'] in sessref.ADMIN_TYPES:
+                    t += 1
+                out.append(('gapfill %d->%d' % (s, t), inbound(self.begin, '4', self.me, self.them, s, now, [(123, 'Y'), (36, t)], possdup='Y' if gf_possdup else None,
+                                                             orig=now if gf_possdup else None)))
+                s = t
+        return out
+
+
+class C20:
+    id = 'C20'
+    level = 'exploration'
+    build = [('asan', 'fx')]
+    workers = 8
+    examples = 1200
+    replaying_known = False
+    assumptions = ['the counterparty is a Python model of a conformant FIX peer (own numbering and store; replays application messages with PossDupFlag=Y and OrigSendingTime, '
+                   'gap-fills administrative messages; its gap-fills carry PossDupFlag=Y or not, both are legal)',
+                   'recovery is checked at quiescence of a finite history: after the last operation the counterparty sends one more Heartbeat if anything is still missing, answers the '
+                   'ResendRequest, and then the three claims are evaluated',
+                   'the counterparty answers a ResendRequest either at once or after one further new message (sent before it saw the request)']
+    rule = ('Hypothesis draws FIX version, role and a history of 1-30 counterparty operations: new application message / Heartbeat / TestRequest, each either delivered or lost '
+            '(sent while disconnected: numbered, stored by the counterparty, never received), application sends of the session itself, and reconnects (session restarted on its store). '
+            'Whenever the session emits a ResendRequest the model answers it conformantly. Oracle: the session never emits a Logout or terminates; at quiescence every application message the '
+            'counterparty sent has been delivered to the application at least once and the session expects exactly the counterparty\'s next number. Non-trivial: a gap of >= 2 messages '
+            'recovered by replay, or a gap containing both application and administrative messages.')
+
+    def __init__(self, tier):
+        self.tier = tier
+        if tier == 'thorough':
+            self.examples = 30000
+            self.workers = 16
+
+    def make_executor(self):
+        return executor()
+
+    def strategy(self):
+        op = st.one_of(
+            st.tuples(st.just('app'), st.booleans(), st.booleans()),
+            st.tuples(st.just('app'), st.booleans(), st.booleans()),
+            st.tuples(st.just('hb'), st.booleans(), st.booleans()),
+            st.tuples(st.just('testreq'), st.booleans(), st.booleans()),
+            st.tuples(st.just('own_send')),
+            st.tuples(st.just('reconnect')),
+        )
+        return st.fixed_dictionaries({'schema': st.sampled_from(['UTEST', 'F44']), 'role': st.sampled_from(['i', 'a']), 'gfpd': st.booleans(),
+                                      'ops': st.lists(op, min_size=1, max_size=30)})
+
+    def run(self, case, ex):
+        schema = case['schema']; begin = sessref.BEGIN[schema]
+        initiator = case['role'] == 'i'
+        me, them = ('CLI', 'SRV') if initiator else ('SRV', 'CLI')
+        peer = ConformantPeer(begin, them, me)
+        sessref.wipe(ex)
+        clock = [T0]
+        sessref.set_clock(ex, T0)
+        S = Sess(ex, schema)
+        trace = ['%s %s' % (schema, 'initiator' if initiator else 'acceptor')]
+        delivered = set()
+        excluded = []
+        cls = set()
+        st_now = [None]
+        known = self.replaying_known
+        stats = {'gap_max': 0, 'mixed_gap': False}
+
+        def fail(msg):
+            raise Violation('C20: %s\n  %s' % (msg, '\n  '.join(trace)))
+
+        deferred = []
+
+        def feed(what, raw, depth=0, defer=False):
+            o = S.feed(raw)
+            st_now[0] = o.st
+            for d in o.deliv:
+                if d['b'].get(11):
+                    delivered.add(d['b'].get(11))
+            outs = [(m.type, m.get(7) or '') for m in o.msgs]
+            trace.append('  %s -> delivered %s out %s state %s next expected %s' % (what, [d['b'].get(11) for d in o.deliv], outs, sessref.STATE_NAMES[o.st], o.nrs))
+            if any(m.type == '5' for m in o.msgs) or o.shut or o.st == sessref.ST_TERMINATED:
+                fail('the session terminated on conformant traffic (%s)' % what)
+            for m in o.msgs:
+                if m.type == '2':
+                    if depth > 3:
+                        fail('ResendRequest issued again while its own request is being answered')
+                    b, e = int(m.get(7)), int(m.get(16))
+                    if defer:
+                        deferred.append((b, e))
+                        continue
+                    answer(b, e, depth)
+            return o
+
+        def answer(b, e, depth=0):
+            if True:
+                if True:
+                    rng = [s for s in range(b, peer.pn)]
+                    stats['gap_max'] = max(stats['gap_max'], len(rng))
+                    kinds = {peer.sent[s]['type'] in sessref.ADMIN_TYPES for s in rng}
+                    if len(kinds) == 2:
+                        stats['mixed_gap'] = True
+                    clock[0] += 1
+                    sessref.set_clock(ex, clock[0])
+                    for w, r in peer.replay(b, e, ts(clock[0]), case['gfpd']):
+                        feed(w, r, depth + 1)
+
+        def logon():
+            o = S.new(case['role'], me, them, 30, 'mem:c20')
+            seq, raw = peer.new('A', ts(clock[0]), [(98, 0), (108, 30)])
+            o = feed('Logon 34=%d' % seq, raw)
+            if st_now[0] != sessref.ST_CONTINUOUS and st_now[0] != sessref.ST_RESEND_REQUEST_SENT:
+                fail('logon did not establish the session (state %s)' % sessref.STATE_NAMES[o.st])
+
+        logon()
+        pending_lost = 0                   # numbers the counterparty used that the session has not been offered yet
+        n = 0
+        for op in case['ops']:
+            clock[0] += 1
+            sessref.set_clock(ex, clock[0])
+            now = ts(clock[0])
+            k = op[0]
+            n += 1
+            if k == 'own_send':
+                o = S.send(sessref.nos_spec('mine%d' % n))
+                continue
+            if k == 'reconnect':
+                if pending_lost:
+                    cls.add('reconnect_with_logon_above_expected')
+                trace.append('reconnect (session restarted on its store)%s' % (', %d messages were sent while disconnected' % pending_lost if pending_lost else ''))
+                S.delete()
+                logon()
+                if pending_lost:
+                    pending_lost = 0
+                cls.add('reconnect')
+                continue
+            lost, early = op[1], op[2]
+            if k == 'app':
+                seq, raw = peer.new('D', now, sessref.nos_toks('p%d' % peer.pn, now), app_id='p%d' % peer.pn)
+            elif k == 'hb':
+                seq, raw = peer.new('0', now)
+            else:
+                seq, raw = peer.new('1', now, [(112, 'T%d' % n)])
+            if lost:
+                pending_lost += 1
+                trace.append('counterparty sends %s 34=%d while disconnected (lost)' % (k, seq))
+                cls.add('loss')
+                continue
+            if pending_lost and early:
+                # the counterparty sends one more new message before it has seen the ResendRequest; only then does it answer the request
+                trace.append('counterparty sends %s 34=%d' % (k, seq))
+                feed('%s 34=%d' % (k, seq), raw, defer=True)
+                seq2, raw2 = peer.new('D', now, sessref.nos_toks('p%d' % peer.pn, now), app_id='p%d' % peer.pn)
+                trace.append('counterparty sends app 34=%d before it has seen the ResendRequest' % seq2)
+                feed('app 34=%d' % seq2, raw2, defer=True)
+                cls.add('new_message_before_request_seen')
+                while deferred:
+                    b, e = deferred.pop(0)
+                    answer(b, e)
+                pending_lost = 0
+                continue
+            trace.append('counterparty sends %s 34=%d' % (k, seq))
+            feed('%s 34=%d' % (k, seq), raw)
+            pending_lost = 0
+        # quiescence
+        if pending_lost:
+            clock[0] += 1
+            sessref.set_clock(ex, clock[0])
+            seq, raw = peer.new('0', ts(clock[0]))
+            trace.append('quiescence: counterparty sends Heartbeat 34=%d' % seq)
+            feed('hb 34=%d' % seq, raw)
+        o = S.obs()
+        want = {m['id'] for m in peer.sent.values() if m['id']}
+        missing = sorted(want - delivered)
+        if missing:
+            fail('application messages of the counterparty never delivered: %s' % missing)
+        if o.nrs != peer.pn:
+            fail('after recovery the session expects %s, the counterparty\'s next number is %d' % (o.nrs, peer.pn))
+        S.delete()
+        if stats['mixed_gap']: cls.add('gap_with_app_and_admin')
+        return {'nontrivial': stats['gap_max'] >= 3 or stats['mixed_gap'] or 'reconnect_with_logon_above_expected' in cls, 'classes': sorted(cls) + ['role:' + case['role']], 'excluded': excluded, 'key': case,
+                'sample': {'history': trace[:40]}}
+
+
+CHECKS['C20'] = C20
